@@ -293,7 +293,9 @@ def nm_to_ansi_j(n, m):
 def ansi_j_to_nm(idx):
     """Convert ANSI single term to (n,m) two-term index."""
     n = int(np.ceil((-3 + np.sqrt(9 + 8*idx))/2))
-    m = 2 * idx - n * (n + 2)
+    # m is negative for every sine term: do the subtraction in python integers
+    # so that an unsigned numpy index does not wrap around
+    m = 2 * int(idx) - n * (n + 2)
     return n, m
 
 
